@@ -33,6 +33,7 @@ type writerState struct {
 	// emitted when the operation shows its first effect (announcement or return), which
 	// is the same step unless the writer had to wait for another writer of the target
 	pending bool
+	locked  bool       // an LWrite of the current operation was emitted (the mutex is held)
 	res     []string   // result class per operation, written by the writer goroutine
 	recs    []*stepRec // LWrite record per operation (nil for reset)
 }
@@ -105,6 +106,7 @@ func runSched(cs *Case, decide func(ready []string, k int) int) (*runS, *Obs) {
 		if o.W != -1 {
 			continue
 		}
+		before := len(r.steps)
 		if o.K != "reset" {
 			preRec = r.emit(&stepRec{kind: "write", w: 0, op: o})
 			// the record must precede the feed records: fill the result afterwards
@@ -112,6 +114,9 @@ func runSched(cs *Case, decide func(ready []string, k int) int) (*runS, *Obs) {
 		} else {
 			preRec = nil
 			r.e.apply(o)
+		}
+		if len(r.steps) > before {
+			r.emit(&stepRec{kind: "unlock", w: 0})
 		}
 	}
 	preRec = nil
@@ -310,7 +315,16 @@ func (r *runS) release(t *Thread) {
 			if o := ws.ops[ws.cur]; o.K != "reset" {
 				ws.rec = r.emit(&stepRec{kind: "write", w: xi, op: o})
 				ws.recs[ws.cur] = ws.rec
+				ws.locked = true
 			}
+		}
+		if x.Name[0] == 'w' && (ev.Kind == "op" || ev.Kind == "done") && r.ws[xi].locked {
+			// the operation returned: the target's write mutex is released
+			r.ws[xi].locked = false
+			r.emit(&stepRec{kind: "unlock", w: xi})
+		}
+		if x.Name[0] == 'w' && ev.Kind == "blocked" {
+			r.trace = append(r.trace, fmt.Sprintf("  %s blocked (%s): another writer holds the target's write mutex", x.Name, ev.Point))
 		}
 		switch {
 		case ev.Kind == "hang" || ev.Kind == "panic":
@@ -328,6 +342,7 @@ func (r *runS) release(t *Thread) {
 					r.bad = "reset announced something that is no root delete"
 				} else {
 					r.emit(&stepRec{kind: "write", w: xi, op: o, sub: fi.p[:2], res: "ok"})
+					ws.locked = true
 				}
 			} else if o.K == "del" && ws.rec != nil {
 				ws.rec.order = append(ws.rec.order, fi.p)
